@@ -4,9 +4,15 @@
 
 #![allow(clippy::all)]
 
+mod c04;
 mod c09;
 mod c18;
 mod c20;
+mod memws;
+mod monitors;
+mod sim;
+mod streams;
+mod wl;
 mod refcodec;
 mod util;
 
@@ -56,9 +62,21 @@ fn main() {
     let t0 = std::time::Instant::now();
     let (st, rule): (Stats, &str) = match cmd.as_str() {
         "c09" => c09::run(&p),
+        "c02" => streams::run_family(&p, &streams::C02),
+        "c03" => streams::run_family(&p, &streams::C03),
+        "c04" => c04::run(&p),
+        "c05" => streams::run_family(&p, &streams::C05),
         "c18" => c18::run(&p),
         "c20" => c20::run(&p),
         "noop" => (Stats::new(), "noop"),
+        "rerun" => {
+            // vmux rerun --prop c02 --run-seed N [--tail K]
+            let prop = p.get("prop").unwrap_or("c02").to_string();
+            let seed: u64 = p.get("run-seed").and_then(|s| s.parse().ok()).unwrap_or(1);
+            let tail: usize = p.get("tail").and_then(|s| s.parse().ok()).unwrap_or(80);
+            streams::rerun(&prop, seed, tail);
+            return;
+        }
         "replay-c09" => (c09::replay(p.get("input").unwrap_or("")), "replay"),
         other => {
             eprintln!("unknown sub-command {other}");
